@@ -7,6 +7,7 @@ order of the structure fields: naturals/integers in decimal, byte strings in hex
 -/
 import Driver.Util
 import PsdVerif.Model.Psd
+import PsdVerif.Model.Walker
 
 namespace Driver.Psd
 open PsdVerif PsdVerif.Codec PsdVerif.Psd Driver
@@ -291,6 +292,9 @@ def cmds : List (String × Cmd) := [
     | [a, t] => match a.toNat?, parseAll pPSD t with
       | some pad, some x => okLine (if x.WF pad then "1" else "0")
       | _, _ => badRequest
+    | _ => badRequest),
+  ("psd.walk", fun   -- data -> ok header end regions  |  walk-err section pos reason
+    | [h] => withBytes h fun d => Walker.report (Walker.walk d)
     | _ => badRequest)
 ]
 
